@@ -88,7 +88,7 @@ Corollary requests_complete_at_rest : forall s,
     match m_kind y with
     | MMap _ => m_idx y = length (m_els y) /\
                 tasks_of s m + count e_bad (m_els y) = length (m_els y)
-    | _ => tasks_of s m = (if m_bad y then 0 else m_num y)
+    | _ => tasks_of s m = ngood (m_bad y) (m_num y)
     end.
 Proof.
   intros s X NC Hts Hti Hsz HR m y Hy Hd. pose proof (x_wf _ X) as W.
